@@ -36,11 +36,10 @@ Qed.
 (* ------------------------------------------------------------------ *)
 (* C17, last sentence: unacceptable segments are inert                 *)
 
-(* the two classes of the property text; CLOSING is left out of the first one
-   because the code skips the sequence check there (tcb.rs l.385) - see
-   closing_not_inert below *)
+(* the two classes of the property text.  (Until fix commit bbbdf8a3 CLOSING had
+   to be left out of the first one: the code skipped the sequence check there.) *)
 Definition unacceptable (t : tcb) (s : segment) : Prop :=
-  (st t <> SynSent /\ st t <> Closing /\
+  (st t <> SynSent /\
    is_seq_ok t (zlen (s_text s)) (h_seq (s_hdr s)) (c_syn (h_ctl (s_hdr s))) (c_fin (h_ctl (s_hdr s))) = false)
   \/ (st t = SynSent /\ c_syn (h_ctl (s_hdr s)) = false /\ c_rst (h_ctl (s_hdr s)) = false).
 
@@ -54,7 +53,7 @@ Definition reply_only (t : tcb) (s : segment) (t' : tcb) : Prop :=
 Lemma process_segment_unacceptable t s : unacceptable t s ->
   exists t' r, process_segment t s = Ok (t', r) /\ should_delete r = false /\ reply_only t s t'.
 Proof.
-  unfold unacceptable, reply_only. intros [(Hn1 & Hn2 & Hbad)|(Est & Hsyn & Hrst)].
+  unfold unacceptable, reply_only. intros [(Hn1 & Hbad)|(Est & Hsyn & Hrst)].
   - unfold process_segment. rewrite Hbad. cbn [negb].
     exists (enqueue t (ack_hdr t)), PDiscard.
     split; [destruct (st t); try reflexivity; congruence|].
@@ -127,12 +126,12 @@ Proof.
     left. split; [congruence|assumption].
 Qed.
 
-(* CLOSING: the sequence check is skipped (tcb.rs l.385, "Sequence number checks
-   don't apply for LISTEN, SYN-SENT, or CLOSING" - RFC 9293 3.10.7.4 does apply
-   it to CLOSING).  A segment ENTIRELY OUTSIDE the receive window therefore
-   changes the state when it acknowledges our FIN, and a RST with any sequence
-   number deletes the TCB.  Witness: ISS 100, peer's RCV.NXT 501, our FIN (seq
-   101) in flight; the forged segments carry seq = RCV.NXT + 2^31. *)
+(* CLOSING.  Before fix commit bbbdf8a3 the code skipped the sequence check in
+   CLOSING (RFC 9293 3.10.7.4 applies it there): a segment entirely outside the
+   receive window that acknowledged our FIN moved CLOSING to TIME-WAIT, and a RST
+   with any sequence number deleted the TCB.  The former witness (ISS 100, peer's
+   RCV.NXT 501, our FIN seq 101 in flight, forged segments at seq = RCV.NXT + 2^31)
+   is kept, now as an instance of the inertness theorem. *)
 Definition closing_tcb : tcb :=
   mkTcb 1000 80 1500 false Closing 101 102 65535 500 101 100 500 502 DEFAULT_WND
         [] [mkTx (mkSeg (hb_wnd (hb_ack (hb_fin (mkHdr 1000 80 101 0 ctl0 0 0)) 501) DEFAULT_WND) []) false]
@@ -142,20 +141,24 @@ Definition far_ack : segment :=
 Definition far_rst : segment :=
   mkSeg (mkHdr 80 1000 (502 + H31) 0 (mkCtl false false false true false false) 0 0) [].
 
-Lemma closing_not_inert :
-  Inv closing_tcb /\ wf_seg far_ack /\ wf_seg far_rst /\
-  is_seq_ok closing_tcb 0 (h_seq (s_hdr far_ack)) false false = false /\
-  (exists t', segment_arrives closing_tcb far_ack = Ok (t', AOk) /\ st t' = TimeWait) /\
-  (exists t', segment_arrives closing_tcb far_rst = Ok (t', AClose)).
+Lemma closing_witness_wf : Inv closing_tcb /\ wf_seg far_ack /\ wf_seg far_rst.
 Proof.
   split.
   { constructor; cbn; unfold u16, u32, M32, SPACE_FOR_HEADERS, DEFAULT_WND, RTO, tw_ok; try lia;
       repeat constructor; cbn; unfold u16, u32, M32, MAXTEXT, zlen; cbn; lia. }
-  split. { repeat split; cbn; unfold u16, u32, M32, H31, MAXTEXT, zlen; cbn; lia. }
-  split. { repeat split; cbn; unfold u16, u32, M32, H31, MAXTEXT, zlen; cbn; lia. }
-  split. { vm_compute. reflexivity. }
-  split; eexists; vm_compute; split; reflexivity || reflexivity.
+  split; repeat split; cbn; unfold u16, u32, M32, H31, MAXTEXT, zlen; cbn; lia.
 Qed.
+
+Lemma closing_far_unacceptable : unacceptable closing_tcb far_ack /\ unacceptable closing_tcb far_rst.
+Proof. split; left; (split; [discriminate|]); vm_compute; reflexivity. Qed.
+
+(* ... and, computed: the state stays CLOSING, nothing is deleted *)
+Lemma closing_now_inert :
+  match segment_arrives closing_tcb far_ack, segment_arrives closing_tcb far_rst with
+  | Ok (t1, AOk), Ok (t2, AOk) => st t1 = Closing /\ st t2 = Closing
+  | _, _ => False
+  end.
+Proof. vm_compute. split; reflexivity. Qed.
 
 (* ------------------------------------------------------------------ *)
 (* is_seq_ok = false  <->  the segment lies entirely outside
@@ -1250,7 +1253,7 @@ Proof. vm_compute. reflexivity. Qed.
 (* the hypotheses of the inertness theorem are satisfiable: a RST 2^31 away in ESTABLISHED *)
 Example unacceptable_example : Inv idle_tcb /\ wf_seg far_rst /\ unacceptable idle_tcb far_rst.
 Proof.
-  split; [apply ack_antipode|].
-  split; [apply closing_not_inert|].
-  left. split; [discriminate|]. split; [discriminate|]. vm_compute. reflexivity.
+  split; [exact (r_inv _ (proj1 (proj1 ack_antipode)))|].
+  split; [exact (proj2 (proj2 closing_witness_wf))|].
+  left. split; [discriminate|]. vm_compute. reflexivity.
 Qed.
